@@ -197,6 +197,8 @@ pub fn c03_configs() -> Vec<Cfg> {
     v.push(mk("user-mask-mismatch", None, vec![("cfguser", "n", Some("userpw"), Some("n!~cfguser@10.*"))]));
     v.push(mk("user+server-password", Some("right"), vec![("cfguser", "n", Some("userpw"), None)]));
     v.push(mk("user-nopass-under-server-password", Some("right"), vec![("cfguser", "n", None, None)]));
+    // a configured name is a name as written: upper-case letters are nothing special
+    v.push(mk("user-password-mixed-case-name", None, vec![("CfgUser", "n", Some("userpw"), None)]));
     v
 }
 
@@ -210,6 +212,7 @@ fn c03_scn(cfg: Cfg, full: bool) -> C03 {
     let mut s = ChatScn::new(&name, cfg.clone(), vec![], 2);
     s.slots = 2;
     s.focus = Focus::all();
+    let uname = cfg.users.first().map(|u| u.0.clone()).unwrap_or_else(|| "cfguser".to_string());
     s.extra_actions = Some(Box::new(move |_scn, v| {
         let mut acts = vec![];
         // the witness may take the nickname the fresh connection is about to use
@@ -225,9 +228,10 @@ fn c03_scn(cfg: Cfg, full: bool) -> C03 {
             }
             Life::Live => {
                 if !v.registered(1) {
-                    for l in ["PASS right", "PASS wrong", "PASS userpw", "NICK n", "USER cfguser 0 * :r", "USER other 0 * :r", "CAP LS 302", "CAP REQ :sasl", "CAP END", "QUIT"] {
+                    for l in ["PASS right", "PASS wrong", "PASS userpw", "NICK n", "USER other 0 * :r", "CAP LS 302", "CAP REQ :sasl", "CAP END", "QUIT"] {
                         acts.push(Act::Send(1, l.to_string()));
                     }
+                    acts.push(Act::Send(1, format!("USER {} 0 * :r", uname)));
                     if full {
                         for l in ["CAP REQ :multi-prefix", "CAP REQ :multi-prefix sasl", "CAP REQ", "AUTHENTICATE PLAIN", "NICK wit", "CAP LIST"] {
                             acts.push(Act::Send(1, l.to_string()));
@@ -359,6 +363,9 @@ pub fn plan(property: &str, quick: bool) -> Plan {
             // "modify only the user it registered itself": two users whose nicknames differ only in
             // letter case are two users (scenario shared with C11)
             parts.push(Part::Bfs(Box::new(super::life::c11_case_scn()), lim(if quick { 4 } else { 5 }, 2_000_000, if quick { 20.0 } else { 300.0 })));
+            // "a connection whose registration was refused (... mask mismatch) ... has no effect":
+            // the contended registration with a configured user mask (scenario shared with C14)
+            parts.push(Part::Bfs(Box::new(super::c14::user_mask_contended(!quick)), lim(if quick { 6 } else { 7 }, 2_000_000, if quick { 20.0 } else { 600.0 })));
             // nicknames at and beyond the advertised NICKLEN (200): the server accepts longer
             // ones, so they are whole nicknames - a longer name is not the user whose name is
             // its 200-character prefix
